@@ -23,7 +23,7 @@ def families(tier):
         d["alpha"]["clusters"] = False
         D.trim_to_budget(d, bud)
         fam.append(d)
-    return fam + D.amb_family(SEED + 12, 4 if tier == "quick" else 12, maxlen=2 if tier == "quick" else 3)
+    return fam + D.cmd_or_pos_family(SEED + 13, 8 if tier == "quick" else 24, maxlen=3 if tier == "quick" else 4, budget=bud) + D.amb_family(SEED + 12, 4 if tier == "quick" else 12, maxlen=2 if tier == "quick" else 3)
 
 
 def run(v):
